@@ -46,6 +46,8 @@ SimConn == { <<"p1", "i1">>, <<"p3", "i2">> }
 SimQueries == { <<"i1", TRUE, FALSE, 64>>, <<"i2", TRUE, FALSE, 84>>, <<"i1", FALSE, FALSE, 104>>, <<"i2", TRUE, TRUE, 124>>,
                 <<"i1", TRUE, FALSE, 1400>>, <<"i2", FALSE, TRUE, 564>> }
 SimDts == {1, 2, 3, 4, 6}
+\* ---- bulk world (trace validation only): enough routes to fill several packets at the real MTUs
+BigPrefixes == {"p" \o ToString(j) : j \in 1..140}
 \* Next for -simulate runs.  TLC's simulator first picks one of the syntactic sub-actions of the next-state
 \* relation (it splits every \E over a CONSTANT set into one sub-action per value) and then one of its
 \* successors: with Next as it stands 50 of 80 sub-actions are responses and time hardly ever passes.  A
